@@ -250,7 +250,12 @@ pub(crate) mod verif_mpmc {
                         if is_stream { bits |= 0; }
                     }
                     Poll::Ready(None) => {
-                        oracle!(p, P08 | P11 | P17, exp == Some(None), "C11 mpmc: a receive yielded None although the channel is open or a value is still available");
+                        if is_stream {
+                            // stream protocol (C17): None exactly when the channel is closed AND drained
+                            oracle!(p, P08 | P11 | P17, exp == Some(None), "C11+C17 mpmc stream: ended (None) although the channel is open or an accepted value is still undelivered");
+                        } else {
+                            oracle!(p, P08 | P11 | P17, exp == Some(None), "C11 mpmc: a receive yielded None although the channel is open or a value is still available");
+                        }
                         if is_stream && next_tag > 3 { bits |= W_STREAM_ENDS; }
                         rpend[j] = false;
                     }
